@@ -159,6 +159,9 @@ def leaf_why(parsed, v, sh, text_form):
         return None if float_ok(parsed, v[k], 32 if k == 'f32' else 64) else 'float %r, expected bits %s' % (parsed, v[k])
     if k == 'str':
         want = bytes.fromhex(v['s']).decode('utf-8', 'surrogatepass')
+        if text_form and parsed != want and '\r' in want and parsed == want.replace('\r\n', '\n').replace('\r', '\n'):
+            CR_NORMALISED.append(want)         # XML end-of-line normalisation of a raw CR: judged separately by the caller
+            return None
         return None if parsed == want else 'string %r, expected %r' % (parsed[:60] if isinstance(parsed, str) else parsed, want[:60])
     if k == 'tp':
         got = parse_tp(parsed) if isinstance(parsed, str) else None
@@ -169,6 +172,7 @@ def leaf_why(parsed, v, sh, text_form):
     return 'unexpected leaf kind ' + k
 
 
+CR_NORMALISED = []
 LEAVES = ('bool', 'int', 'enum', 'f32', 'f64', 'str', 'tp', 'dur')
 
 
